@@ -190,7 +190,8 @@ def check(ctx):
     start = ra.loops[0]["before"] if ra.loops else {}
     rt = ra.ret()
     seeds_ok = any(is_call(t, "extend") or (t[1][0] == "a" and t[1][2] == "extend"
-                                            and t[2] and t[2][0][0] == "comp")
+                                            and t[2] and (t[2][0][0] == "comp" or t[2][0] == (
+                                                "a", ("iter", ("a", SELF, "vars")), "nodes")))
                    for t, _, _ in ra.calls)
     user_apps = {}
     for t, _, cond in ra.calls:
